@@ -19,8 +19,12 @@ class Inconclusive(Exception):
 class Replay:
     """drives the real o2o_impl::expand::derive (built from /repo's current tree)"""
     BIN = os.path.join(VERIF, 'target', 'replay', 'release', 'o2o-replay')
+    CRATE, TARGET = 'replay', 'replay'
 
-    def __init__(self):
+    def __init__(self, syn=1):
+        if syn == 2:      # the same helper linked against o2o-impl built with the `syn2` feature
+            self.BIN = os.path.join(VERIF, 'target', 'replay2', 'release', 'o2o-replay2')
+            self.CRATE, self.TARGET = 'replay2', 'replay2'
         self.built = False
         self.proc = None
         self.n = 0
@@ -31,8 +35,8 @@ class Replay:
             return
         env = dict(os.environ, CARGO_NET_OFFLINE='true')
         env.pop('RUSTUP_TOOLCHAIN', None)
-        p = subprocess.run(['cargo', 'build', '--release', '--offline', '--target-dir', os.path.join(VERIF, 'target', 'replay')],
-                           cwd=os.path.join(VERIF, 'crates', 'replay'), env=env, stdout=subprocess.PIPE, stderr=subprocess.PIPE, text=True)
+        p = subprocess.run(['cargo', 'build', '--release', '--offline', '--target-dir', os.path.join(VERIF, 'target', self.TARGET)],
+                           cwd=os.path.join(VERIF, 'crates', self.CRATE), env=env, stdout=subprocess.PIPE, stderr=subprocess.PIPE, text=True)
         if p.returncode != 0:
             raise Inconclusive('replay helper does not build against /repo: ' + p.stderr[-2000:])
         self.built = True
@@ -100,6 +104,7 @@ class Ctx:
         self.rng = random.Random(self.seed)
         self.t0 = time.time()
         self.replay = Replay()
+        self.replay2 = Replay(syn=2)
         self.known = [k for k in load_known() if k.get('property') == prop and 'fixed' not in k]
         self.violations = []          # dicts: site, input_class, detail, replay(dict)
         self.known_hits = {}
@@ -110,6 +115,7 @@ class Ctx:
                     'sub_checks': {}}
         self.assumptions = []
         self._prep = None
+        self._prep2 = None
         self.engines = []
 
     # ---- engine
@@ -122,10 +128,20 @@ class Ctx:
                 raise Inconclusive(str(e))
         return self._prep
 
-    def engine(self):
+    def prep2(self):
+        """the MIR of o2o-impl built with the `syn2` feature"""
+        if self._prep2 is None:
+            from prep import prepare
+            try:
+                self._prep2 = prepare(feature='syn2')
+            except RuntimeError as e:
+                raise Inconclusive(str(e))
+        return self._prep2
+
+    def engine(self, syn=1):
         from engine import Engine
-        P = self.prep()
-        e = Engine(P['mir'], P['src'])
+        P = self.prep() if syn == 1 else self.prep2()
+        e = Engine(P['mir'], P['src'], syn=syn)
         self.engines.append(e)
         return e
 
@@ -193,7 +209,7 @@ class Ctx:
         cov['functions_encoded'] = sorted(cov['functions_encoded'])
         cov['models_used'] = sorted(cov['models_used'])
         return {'cov': cov, 'violations': self.violations, 'known_hits': {('%s\x00%s' % k): v for k, v in self.known_hits.items()},
-                'inconclusive': self.inconclusive, 'replays': self.replay.count}
+                'inconclusive': self.inconclusive, 'replays': self.replay.count + self.replay2.count}
 
     def merge(self, ex):
         c = ex['cov']
@@ -216,14 +232,17 @@ class Ctx:
         self.inconclusive.extend(ex['inconclusive'])
         self.replay.count += ex['replays']
 
-    def run_shards(self, fn, shards, procs=None):
+    def run_shards(self, fn, shards, procs=None, syn2=False):
         """fn(sub_ctx, shard) in worker processes; shards: list of picklable descriptions"""
         import multiprocessing as mp
         self.prep()
         self.replay.build()
+        if syn2:
+            self.prep2()
+            self.replay2.build()
         procs = procs or int(os.environ.get('VERIF_PROCS', '0')) or min(16, os.cpu_count() or 4)
         procs = max(1, min(procs, len(shards)))
-        args = [(self.prop, self.tier, self.seed, self._prep, fn.__module__, fn.__name__, sh) for sh in shards]
+        args = [(self.prop, self.tier, self.seed, (self._prep, self._prep2), fn.__module__, fn.__name__, sh) for sh in shards]
         if procs == 1:
             outs = [_shard_worker(a) for a in args]
         else:
@@ -238,7 +257,7 @@ class Ctx:
         cov = dict(self.cov)
         cov['functions_encoded'] = sorted(cov['functions_encoded'])
         cov['models_used'] = sorted(cov['models_used'])
-        cov['native_replays'] = self.replay.count
+        cov['native_replays'] = self.replay.count + self.replay2.count
         cov['known_findings_hit'] = [{'site': k[0], 'input_class': k[1], 'paths': v['n']} for k, v in self.known_hits.items()]
         if not cov['samples']:
             cov['samples'] = ['(no sample recorded)']
@@ -277,7 +296,7 @@ class Ctx:
             code = 2
         q = cov['queries']
         print('%s tier=%s seed=%d paths=%d queries(unsat=%d sat=%d unknown=%d) native_replays=%d wall=%.1fs -> exit %d' % (
-            self.prop, self.tier, self.seed, cov['states'], q['unsat'], q['sat'], q['unknown'], self.replay.count, wall, code))
+            self.prop, self.tier, self.seed, cov['states'], q['unsat'], q['sat'], q['unknown'], self.replay.count + self.replay2.count, wall, code))
         return code
 
 
@@ -286,8 +305,9 @@ def _shard_worker(a):
     import importlib
     from engine import Unsupported, PathLimit
     sub = Ctx(prop, tier, seed)
-    sub._prep = prep
+    sub._prep, sub._prep2 = prep
     sub.replay.built = True
+    sub.replay2.built = sub._prep2 is not None
     try:
         m = sys.modules.get(mod) or sys.modules.get('__main__')
         fn = getattr(m, fname, None)
@@ -318,6 +338,9 @@ def main(prop, body):
             for t, r in zip(texts, ctx.replay.run_many(texts)):
                 print('INPUT ', t)
                 print('RESULT', json.dumps(r)[:3000])
+            if prop == 'C18':
+                for t, r in zip(texts, ctx.replay2.run_many(texts)):
+                    print('RESULT (syn2 build)', json.dumps(r)[:3000])
             print('recorded detail:', rp.get('detail'))
             sys.exit(1)
         body(ctx)
